@@ -174,7 +174,7 @@ def execute(case: dict) -> RunResult:
         res.faults["history.earlier_calls_on_same_chain"] += len(case["warmup_messages"])
     if case.get("prelude"):
         res.faults["history.sibling_code_built_first"] += 1
-    enc = C.private(C.build_encoder(spec))
+    enc = C.private_encoder(spec)
     n = enc.code_length
     if lr.exc is not None:
         violate(f"exception:{type(lr.exc).__name__}@{lr.exc_stage}", f"raised {type(lr.exc).__name__}: {str(lr.exc)[:160]} (stage {lr.exc_stage})")
